@@ -403,3 +403,149 @@ func ruleSetOrder(c *Ctx, r *Report) {
 	}
 	r.analysed(rule, fname(set))
 }
+
+// ---------------------------------------------------------------------------
+// R-COMPOUND-ORDER (C08): compounds are ordered by arity, then by name, then by arguments left to right.
+
+func ruleCompoundOrder(c *Ctx, r *Report) {
+	const rule = "R-COMPOUND-ORDER"
+	cc := c.fn("CompareCompound")
+	if cc == nil {
+		r.undecided(rule, "anchor:CompareCompound", "-", "locate the compound comparison", "not found")
+		return
+	}
+	isInvoke := func(v ssa.Value, name string) *ssa.Call {
+		call, ok := v.(*ssa.Call)
+		if ok && call.Call.IsInvoke() && call.Call.Method.Name() == name {
+			return call
+		}
+		return nil
+	}
+	var functorCmp, argCmp *ssa.Call
+	eachInstr(cc, func(in ssa.Instruction) {
+		call, ok := in.(*ssa.Call)
+		if !ok {
+			return
+		}
+		var recv ssa.Value
+		switch {
+		case call.Call.IsInvoke() && call.Call.Method.Name() == "Compare":
+			recv = call.Call.Value
+		case call.Call.StaticCallee() != nil && call.Call.StaticCallee().Name() == "Compare" && call.Call.StaticCallee().Signature.Recv() != nil:
+			recv = call.Call.Args[0]
+		default:
+			return
+		}
+		// receiver: Functor() or Arg(i), possibly converted to the interface
+		if mi, ok := recv.(*ssa.MakeInterface); ok {
+			recv = mi.X
+		}
+		switch {
+		case isInvoke(recv, "Functor") != nil:
+			functorCmp = call
+		case isInvoke(recv, "Arg") != nil:
+			argCmp = call
+		}
+	})
+	if functorCmp == nil || argCmp == nil {
+		r.bad(rule, fname(cc)+"/steps", c.Pos(cc.Pos()), "compounds are compared by arity, name and arguments", "functor comparison or argument comparison not found")
+		return
+	}
+	// (1) the name is compared only when the arities are equal
+	arityFacts := 0
+	for f := range c.factsAt(functorCmp.Block()) {
+		bo, ok := f.cond.(*ssa.BinOp)
+		if !ok || f.pol {
+			continue
+		}
+		if (bo.Op == token.GTR || bo.Op == token.LSS || bo.Op == token.NEQ) && isInvoke(bo.X, "Arity") != nil && isInvoke(bo.Y, "Arity") != nil {
+			if bo.Op == token.NEQ {
+				arityFacts += 2
+			} else {
+				arityFacts++
+			}
+		}
+	}
+	if arityFacts >= 2 {
+		r.ok(rule, fname(cc)+"/arity-before-name", c.at(functorCmp), "the functor names are compared only when the arities are equal", "dominated by arity(x) > arity(y) == false and arity(x) < arity(y) == false", true)
+	} else {
+		r.bad(rule, fname(cc)+"/arity-before-name", c.at(functorCmp), "the functor names are compared only when the arities are equal", "the name comparison is reachable with unequal arities: f(a,b) @< g(a) would depend on the names first")
+	}
+	// the arity branch returns the sign of the arity difference: x > y -> 1, x < y -> -1
+	eachInstr(cc, func(in ssa.Instruction) {
+		ifi, ok := in.(*ssa.If)
+		if !ok {
+			return
+		}
+		bo, ok := ifi.Cond.(*ssa.BinOp)
+		if !ok || isInvoke(bo.X, "Arity") == nil || isInvoke(bo.Y, "Arity") == nil || (bo.Op != token.GTR && bo.Op != token.LSS) {
+			return
+		}
+		// X must be the receiver's arity (c), Y the argument's
+		xOfC := false
+		if p, ok := isInvoke(bo.X, "Arity").Call.Value.(*ssa.Parameter); ok && paramIndex(cc, p) == 0 {
+			xOfC = true
+		}
+		ret, ok := ifi.Block().Succs[0].Instrs[len(ifi.Block().Succs[0].Instrs)-1].(*ssa.Return)
+		if !ok {
+			return
+		}
+		k, isK := constInt(ret.Results[0])
+		want := int64(1)
+		if (bo.Op == token.LSS) == xOfC {
+			want = -1
+		}
+		key := fmt.Sprintf("%s/arity %s", fname(cc), bo.Op)
+		if isK && k == want {
+			r.ok(rule, key, c.at(ifi), "a compound with smaller arity comes first", fmt.Sprintf("returns %d", k), true)
+		} else {
+			r.bad(rule, key, c.at(ifi), "a compound with smaller arity comes first", fmt.Sprintf("returns %d, want %d", k, want))
+		}
+	})
+	// (2) arguments are compared only when the names are equal, left to right
+	nameEq := false
+	for f := range c.factsAt(argCmp.Block()) {
+		bo, ok := f.cond.(*ssa.BinOp)
+		if !ok {
+			continue
+		}
+		if bo.X == ssa.Value(functorCmp) {
+			if k, isK := constInt(bo.Y); isK && k == 0 && ((bo.Op == token.NEQ && !f.pol) || (bo.Op == token.EQL && f.pol)) {
+				nameEq = true
+			}
+		}
+	}
+	if nameEq {
+		r.ok(rule, fname(cc)+"/name-before-args", c.at(argCmp), "arguments are compared only when the names compare equal", "dominated by Compare(functors) == 0", true)
+	} else {
+		r.bad(rule, fname(cc)+"/name-before-args", c.at(argCmp), "arguments are compared only when the names compare equal", "the argument comparison is reachable with different names")
+	}
+	// left to right: the argument index is a loop counter starting at 0 and increasing by 1; both sides use the same index
+	argL := isInvoke(func() ssa.Value {
+		if mi, ok := argCmp.Call.Value.(*ssa.MakeInterface); ok {
+			return mi.X
+		}
+		return argCmp.Call.Value
+	}(), "Arg")
+	argR := isInvoke(argCmp.Call.Args[0], "Arg")
+	sameIdx := argL != nil && argR != nil && argL.Call.Args[0] == argR.Call.Args[0]
+	upward := false
+	if argL != nil {
+		if phi, ok := argL.Call.Args[0].(*ssa.Phi); ok {
+			for _, e := range phi.Edges {
+				if bo, ok := e.(*ssa.BinOp); ok && bo.Op == token.ADD && bo.X == ssa.Value(phi) {
+					if k, isK := constInt(bo.Y); isK && k == 1 {
+						upward = true
+					}
+				}
+			}
+		}
+	}
+	if sameIdx && upward {
+		r.ok(rule, fname(cc)+"/args-left-to-right", c.at(argCmp), "arguments are compared pairwise from the first to the last", "Arg(i) vs Arg(i) with i increasing from the loop start", true)
+	} else {
+		r.bad(rule, fname(cc)+"/args-left-to-right", c.at(argCmp), "arguments are compared pairwise from the first to the last", fmt.Sprintf("same index on both sides=%v, index increases by one=%v", sameIdx, upward))
+	}
+	// the first non-equal argument decides
+	r.analysed(rule, fname(cc))
+}
